@@ -2,7 +2,7 @@
    listener tables and fetcher caches - function-level theorems on the model. *)
 From Coq Require Import List NArith Bool Lia Permutation Sorted.
 Import ListNotations.
-Require Import EV.Base EV.Access EV.AccessProofs EV.Query EV.QueryProofs EV.SlotMap EV.Reserve EV.HList EV.Loop EV.World.
+Require Import EV.Base EV.Access EV.Query EV.SlotMap EV.Reserve EV.HList EV.Loop EV.World.
 Open Scope N_scope.
 
 (* ---------- merge_row: archetype.rs:390-475 ---------- *)
@@ -104,14 +104,7 @@ Proof.
      |unfold listeners_of; cbn [a_listeners set_tables]; intuition; discriminate]).
 Qed.
 
-(* the filter of a handler with several targeted receivers is the conjunction of their queries'
-   access expressions, whose meaning (C05/C06) is: every receiver query matches *)
-Theorem conjoined_filter_meaning (a : N -> bool) (qs : list query) :
-  ca_matches a (fold_left ca_and (map access_of qs) ca_true) = forallb (qmatch a) qs.
-Proof.
-  rewrite fold_and_matches. cbn. induction qs as [|q qs IH]; cbn; [reflexivity|].
-  now rewrite access_matches_qmatch, IH.
-Qed.
+
 
 (* ---------- fetcher caches (C10) ---------- *)
 Definition cached (c : list centry) (ai : N) : Prop := exists e, In e c /\ ce_idx e = ai.
@@ -152,21 +145,8 @@ Proof.
   - split; [exists e; split; [apply in_or_app; right; now left|reflexivity]|apply in_or_app; right; now left].
 Qed.
 
-Theorem param_refresh_caches_matching ai a k q c :
-  qmatch (arch_has a) q = true ->
-  match param_refresh ai a (RFetch k q c) with
-  | RFetch _ _ c' => In (ai, a_uid a, a_epoch a) c'
-  | _ => False end.
-Proof.
-  intros Hm. cbn [param_refresh]. pose proof (arch_state_iff_qmatch (arch_has a) q) as Hs. rewrite Hm in Hs.
-  destruct (arch_state (arch_has a) q); [|discriminate]. apply cache_insert_has.
-Qed.
-Theorem param_refresh_skips_nonmatching ai a k q c :
-  qmatch (arch_has a) q = false -> param_refresh ai a (RFetch k q c) = RFetch k q c.
-Proof.
-  intros Hm. cbn [param_refresh]. pose proof (arch_state_iff_qmatch (arch_has a) q) as Hs. rewrite Hm in Hs.
-  destruct (arch_state (arch_has a) q); [discriminate|reflexivity].
-Qed.
+
+
 
 (* ---------- cached transitions after a type removal (C14) ---------- *)
 Theorem no_transition_mentions_removed_component w cidx ctag member_of ai a :
